@@ -627,7 +627,18 @@ def loop_body_paths(cfg: CFG, loop: Node, limit: int = 2000) -> List[List[Tuple[
 
 
 # ------------------------------------------------------------------ E8 linearity: placements of a loop element
-def element_placements(node_ast: ast.AST, var: str) -> List[Tuple[str, ast.AST]]:
+def derived_names(path, var: str) -> Set[str]:
+    """Locals bound on the path to a value computed from `var` (x = f(var))."""
+    out: Set[str] = set()
+    for node, lab in path:
+        if node.kind == "stmt" and isinstance(node.ast, (ast.Assign, ast.AnnAssign)) and node.ast.value is not None:
+            t = node.ast.targets[0] if isinstance(node.ast, ast.Assign) else node.ast.target
+            if isinstance(t, ast.Name) and (mentions(node.ast.value, var) or names_in(node.ast.value) & out):
+                out.add(t.id)
+    return out
+
+
+def element_placements(node_ast: ast.AST, var: str, derived: Optional[Set[str]] = None) -> List[Tuple[str, ast.AST]]:
     """Ways the loop element `var` is put into an output inside one statement.
 
     kinds: append (x itself), literal ([x] stored somewhere), yield, replace (extend/yield from of a
@@ -642,13 +653,13 @@ def element_placements(node_ast: ast.AST, var: str) -> List[Tuple[str, ast.AST]]
                     out.append(("append", x))
                 elif mentions(a, var):
                     out.append(("append-derived", x))
-            elif x.func.attr == "extend" and len(x.args) == 1 and mentions(x.args[0], var):
+            elif x.func.attr == "extend" and len(x.args) == 1 and (mentions(x.args[0], var) or (derived and names_in(x.args[0]) & derived)):
                 out.append(("replace", x))
             elif x.func.attr == "insert" and len(x.args) == 2 and mentions(x.args[1], var):
                 out.append(("append", x))
         elif isinstance(x, ast.Yield) and x.value is not None and mentions(x.value, var):
             out.append(("yield", x))
-        elif isinstance(x, ast.YieldFrom) and mentions(x.value, var):
+        elif isinstance(x, ast.YieldFrom) and (mentions(x.value, var) or (derived and names_in(x.value) & derived)):
             out.append(("replace", x))
         elif isinstance(x, ast.Assign) and isinstance(x.targets[0], ast.Subscript) and isinstance(x.value, (ast.List, ast.Tuple)):
             if any(isinstance(e, ast.Name) and e.id == var for e in x.value.elts):
